@@ -437,80 +437,80 @@ func (P *Prog) checkSegmentSource(r *Result) {
 		c := fname(fn)
 		var problems []string
 		nPush := 0
-		for _, l := range mapRangeLoops(fn) {
-			for b := range l.body {
-				for _, in := range b.Instrs {
-					ci := callOf(in)
-					if ci == nil || ci.static == nil || ci.static.Name() != "Push" {
-						continue
-					}
-					nPush++
-					// pushed value: address of a local; find what is stored in it
-					al, ok := cv(ci.args()[1]).(*ssa.Alloc)
-					if !ok {
-						problems = append(problems, "pushed path segment is not a local string")
-						continue
-					}
-					var vals []ssa.Value
-					for _, st := range storesTo(al) {
-						vals = append(vals, st.Val)
-					}
-					if mode == "process" {
-						// must be extract #1 of the GetByField call whose #0 is stored into subCtx.Data
-						okSeg := false
-						for _, v := range vals {
-							ex, ok := v.(*ssa.Extract)
-							if !ok || ex.Index != 1 {
-								continue
-							}
-							call, ok := ex.Tuple.(*ssa.Call)
-							if !ok || callOf(call).invoke == nil || callOf(call).invoke.Name() != "GetByField" {
-								continue
-							}
-							// data store
-							for bb := range l.body {
-								for _, in2 := range bb.Instrs {
-									if st, ok := in2.(*ssa.Store); ok {
-										if _, f := fieldVar(st.Addr); f != nil && sameField(f, R.FData) {
-											if e0, ok := st.Val.(*ssa.Extract); ok && e0.Tuple == ssa.Value(call) && e0.Index == 0 {
-												okSeg = true
-											}
-										}
+		// the field loop region: the loop over the schema map wherever it lives (node function, iteration
+		// helper) plus the closures/helpers its body calls, each read under its substitution
+		for _, lr := range P.schemaLoopRegions(fn) {
+			lr := lr
+			l := lr.loop
+			lr.each(func(_ *regionPart, _ *ssa.BasicBlock, in ssa.Instruction) {
+				ci := callOf(in)
+				if ci == nil || ci.static == nil || ci.static.Name() != "Push" || !sameNamed(namedOf(ci.static.Signature.Recv().Type()), R.PathB) {
+					return
+				}
+				nPush++
+				// pushed value: address of a local; find what is stored in it
+				al, ok := cv(ci.args()[1]).(*ssa.Alloc)
+				if !ok {
+					problems = append(problems, "pushed path segment is not a local string")
+					return
+				}
+				var vals []ssa.Value
+				for _, st := range storesTo(al) {
+					vals = append(vals, st.Val)
+				}
+				if mode == "process" {
+					// must be extract #1 of the GetByField call whose #0 is stored into subCtx.Data
+					okSeg := false
+					for _, v := range vals {
+						ex, ok := v.(*ssa.Extract)
+						if !ok || ex.Index != 1 {
+							continue
+						}
+						call, ok := ex.Tuple.(*ssa.Call)
+						if !ok || callOf(call).invoke == nil || callOf(call).invoke.Name() != "GetByField" {
+							continue
+						}
+						// data store (anywhere in the region)
+						lr.each(func(_ *regionPart, _ *ssa.BasicBlock, in2 ssa.Instruction) {
+							if st, ok := in2.(*ssa.Store); ok {
+								if _, f := fieldVar(st.Addr); f != nil && sameField(f, R.FData) {
+									if e0, ok := cv(st.Val).(*ssa.Extract); ok && e0.Tuple == ssa.Value(call) && e0.Index == 0 {
+										okSeg = true
 									}
 								}
 							}
-							// the fallback argument of GetByField must be the schema key of this iteration
-							fb := call.Call.Args[1]
-							if !valueDerivesFrom(fb, l.key, 6) {
-								problems = append(problems, "GetByField is not given this field's schema key as fallback")
-							}
+						})
+						// the fallback argument of GetByField must be the schema key of this iteration
+						fb := call.Call.Args[1]
+						if !valueDerivesFrom(fb, l.key, 8) {
+							problems = append(problems, "GetByField is not given this field's schema key as fallback")
 						}
-						if !okSeg || len(vals) != 1 {
-							problems = append(problems, "the path segment is not the key returned by the same GetByField call that produced the field's data")
+					}
+					if !okSeg || len(vals) != 1 {
+						problems = append(problems, "the path segment is not the key returned by the same GetByField call that produced the field's data")
+					}
+				} else {
+					// values: the loop key and/or the zog tag lookup result
+					okKey, okTag := false, false
+					for _, v := range vals {
+						if valueDerivesFrom(v, l.key, 8) {
+							okKey = true
 						}
-					} else {
-						// values: the loop key and/or the zog tag lookup result
-						okKey, okTag := false, false
-						for _, v := range vals {
-							if valueDerivesFrom(v, l.key, 4) {
-								okKey = true
-							}
-							if ex, ok := v.(*ssa.Extract); ok && ex.Index == 0 {
-								if call, ok := ex.Tuple.(*ssa.Call); ok {
-									if ci2 := callOf(call); ci2.static != nil && ci2.static.Name() == "Lookup" && len(call.Call.Args) == 2 {
-										if s, ok := constString(call.Call.Args[1]); ok && s == "zog" {
-											okTag = true
-										}
+						if ex, ok := v.(*ssa.Extract); ok && ex.Index == 0 {
+							if call, ok := ex.Tuple.(*ssa.Call); ok {
+								if ci2 := callOf(call); ci2.static != nil && ci2.static.Name() == "Lookup" && len(call.Call.Args) == 2 {
+									if s, ok := constString(call.Call.Args[1]); ok && s == "zog" {
+										okTag = true
 									}
 								}
 							}
 						}
-						if !okKey || !okTag {
-							problems = append(problems, "in Validate the path segment is not `zog` tag, else schema key")
-						}
+					}
+					if !okKey || !okTag {
+						problems = append(problems, "in Validate the path segment is not `zog` tag, else schema key")
 					}
 				}
-			}
+			})
 		}
 		if nPush != 1 {
 			problems = append(problems, fmt.Sprintf("%d Push calls in the field loop (expected 1)", nPush))
@@ -531,6 +531,11 @@ func valueDerivesFrom(v, x ssa.Value, depth int) bool {
 	}
 	if v == x {
 		return true
+	}
+	if substEnv != nil {
+		if sv, ok := substEnv[v]; ok && sv != v {
+			return valueDerivesFrom(sv, x, depth-1)
+		}
 	}
 	switch t := v.(type) {
 	case *ssa.UnOp:
